@@ -342,7 +342,7 @@ func JPEG(t *rapid.T, o Opts) (File, JPEGLayout) {
 			nch = minChunks
 		case 1:
 			nch = maxChunks
-			if nch > 12 && rapid.Bool().Draw(t, "notmax") {
+			if nch > 12 && minChunks <= 12 && rapid.Bool().Draw(t, "notmax") {
 				nch = 12
 			}
 		default:
